@@ -225,7 +225,7 @@ impl Gen {
                 let k = self.len_upto(room.min(300));
                 st.items = self.bits(k);
                 if self.cfg.iter_hints {
-                    st.form = self.rng.below(5) as u8;
+                    st.form = *self.rng.pick(&[0u8, 1, 2, 3, 4, 6, 7]);
                     st.b = self.rng.next();
                     st.bit = self.rng.chance(1, 3); // non-fused
                 } else {
@@ -276,10 +276,17 @@ impl Gen {
             }
             _ => {
                 st.a = self.rng.below(6);
-                st.wide = match self.rng.below(4) {
+                st.wide = match self.rng.below(6) {
                     0 => 0,
                     1 => u128::MAX,
                     2 => 1u128 << self.rng.below(128),
+                    3 | 4 => {
+                        // exactly capacity-1 / capacity / capacity+1 significant bits (or a word width +-1)
+                        let base = if self.rng.bool() { ml.min(128) } else { *self.rng.pick(&[8usize, 16, 32, 64, 128]) };
+                        let sig = (base + self.rng.below(3) as usize).saturating_sub(1).clamp(1, 128);
+                        let top = 1u128 << (sig - 1);
+                        top | (self.rng.u128() & (top - 1))
+                    }
                     _ => self.rng.u128() >> self.rng.below(128),
                 };
                 self.plen[h] = [8, 16, 32, 64, 128, 64][st.a as usize].min(ml);
@@ -731,7 +738,7 @@ fn gen_c19(g: &mut Gen, budget: usize) {
             7 => {
                 // debug-assertion clause: arguments outside the documented domain
                 let mut st = Step::new(Kind::OutOfRange, h as u8);
-                st.a = g.rng.below(5);
+                st.a = g.rng.below(6);
                 st.b = g.rng.next();
                 st.bit = g.rng.bool();
                 g.push(st);
